@@ -238,84 +238,89 @@ def arm_possible(arm, form):
     return True
 
 
-FIELDS_LIGHT = ("sim", "assess", "imp")
+_UPD = ("updV", "updA", "updVA", "updM")
+OPSETS = {
+    # name -> operations performed (each appears in the evidence as ops:<name>)
+    "full": ("sim", "assess", "imp") + _UPD,                      # 1 sampler instance, 8 densities
+    "full+fresh": ("sim", "assess", "imp", "impE", "impM") + _UPD,    # 3 sampler instances
+    "light": ("sim", "assess", "imp"),
+    "lponly": ("assess", "imp") + _UPD,    # no sampler: the trace comes from importance(full constraint)
+    "score-only": ("assess", "imp"),
+    "lp+fresh": ("assess", "imp", "impE", "impM") + _UPD,          # 2 sampler instances
+    # reduced sets for wrappers whose TFP log_prob costs 4-17 CPU-seconds of compile time per instance
+    "core": ("sim", "assess", "updVA"),
+    "sim+assess": ("sim", "assess"),
+    "sim-only": ("sim",),
+    "assess-only": ("assess",),
+    "imp-only": ("imp",),
+    "fresh-min": ("impE",),
+    "upd-min": ("updA", "updM"),
+}
+LPONLY_OPS = ("assess", "imp") + _UPD
 
 
-def gfi_ops(D, arm, a0, a1, uses_kw, key, v1, mflag, light):
-    """All GFI operations of one case on the REAL wrapper. Returns a flat dict of arrays."""
+def gfi_ops(D, arm, a0, a1, uses_kw, key, v0, v1, mflag, ops):
+    """The GFI operations of one case on the REAL wrapper. Returns a flat dict of arrays.
+
+    `v0`: an in-support value used to build the starting trace when `sim` is not in `ops`."""
     import jax
     from genjax import ChoiceMap, Diff
     from genjax import ChoiceMapBuilder as C
 
     ks = jax.random.split(key, 6)
     out = {}
-    if arm.startswith("closure"):
-        if uses_kw:
-            gf = D(*a0[0], **a0[1])
-        else:
-            gf = D(*a0)
+    closure = arm.startswith("closure")
+    if closure:
+        gf = D(*a0[0], **a0[1]) if uses_kw else D(*a0)
         A0 = ()
     else:
         gf = D.handle_kwargs() if uses_kw else D
         A0 = a0
-    tr = gf.simulate(ks[0], A0)
-    out["sim.value"] = tr.get_retval()
-    out["sim.score"] = tr.get_score()
-    out["sim.choice"] = tr.get_choices().get_value()
-    s, r = gf.assess(C.v(v1), A0)
-    out["assess.score"] = s
-    out["assess.value"] = r
-    trI, wI = gf.importance(ks[1], C.v(v1), A0)
-    out["imp.weight"] = wI
-    out["imp.score"] = trI.get_score()
-    out["imp.value"] = trI.get_retval()
-    if light or arm.startswith("closure"):
-        return out
-    trE, wE = gf.importance(ks[2], ChoiceMap.empty(), A0)
-    out["impE.weight"] = wE
-    out["impE.score"] = trE.get_score()
-    out["impE.value"] = trE.get_retval()
-    trM, wM = gf.importance(ks[3], C.v(v1).mask(mflag), A0)
-    out["impM.weight"] = wM
-    out["impM.score"] = trM.get_score()
-    out["impM.value"] = trM.get_retval()
-    t1, w1, _, _ = gf.update(ks[4], tr, C.v(v1), Diff.no_change(a0))
-    out["updV.weight"] = w1
-    out["updV.score"] = t1.get_score()
-    out["updV.value"] = t1.get_retval()
-    t2, w2, _, _ = gf.update(ks[4], tr, ChoiceMap.empty(), Diff.unknown_change(a1))
-    out["updA.weight"] = w2
-    out["updA.score"] = t2.get_score()
-    out["updA.value"] = t2.get_retval()
-    t3, w3, _, _ = gf.update(ks[4], tr, C.v(v1), Diff.unknown_change(a1))
-    out["updVA.weight"] = w3
-    out["updVA.score"] = t3.get_score()
-    out["updVA.value"] = t3.get_retval()
-    t4, w4, _, _ = gf.update(ks[5], tr, C.v(v1).mask(mflag), Diff.unknown_change(a1))
-    out["updM.weight"] = w4
-    out["updM.score"] = t4.get_score()
-    out["updM.value"] = t4.get_retval()
+    tr = None
+    if "sim" in ops:
+        tr = gf.simulate(ks[0], A0)
+        out["sim.value"] = tr.get_retval()
+        out["sim.score"] = tr.get_score()
+        out["sim.choice"] = tr.get_choices().get_value()
+    if "assess" in ops:
+        s, r = gf.assess(C.v(v1), A0)
+        out["assess.score"] = s
+        out["assess.value"] = r
+    if "imp" in ops:
+        trI, wI = gf.importance(ks[1], C.v(v1), A0)
+        out["imp.weight"] = wI
+        out["imp.score"] = trI.get_score()
+        out["imp.value"] = trI.get_retval()
+    if "impE" in ops:
+        trE, wE = gf.importance(ks[2], ChoiceMap.empty(), A0)
+        out["impE.weight"] = wE
+        out["impE.score"] = trE.get_score()
+        out["impE.value"] = trE.get_retval()
+    if "impM" in ops:
+        trM, wM = gf.importance(ks[3], C.v(v1).mask(mflag), A0)
+        out["impM.weight"] = wM
+        out["impM.score"] = trM.get_score()
+        out["impM.value"] = trM.get_retval()
+    if any(u in ops for u in _UPD) and not closure:  # closure.edit belongs to C32
+        if tr is None:
+            tr, w0 = gf.importance(ks[0], C.v(v0), A0)
+            out["imp0.weight"] = w0
+            out["imp0.score"] = tr.get_score()
+            out["imp0.value"] = tr.get_retval()
+        plan = {
+            "updV": (ks[4], lambda: C.v(v1), lambda: Diff.no_change(a0)),
+            "updA": (ks[4], lambda: ChoiceMap.empty(), lambda: Diff.unknown_change(a1)),
+            "updVA": (ks[4], lambda: C.v(v1), lambda: Diff.unknown_change(a1)),
+            "updM": (ks[5], lambda: C.v(v1).mask(mflag), lambda: Diff.unknown_change(a1)),
+        }
+        for u in _UPD:
+            if u in ops:
+                k, chm, argd = plan[u]
+                t1, w1, _, _ = gf.update(k, tr, chm(), argd())
+                out[f"{u}.weight"] = w1
+                out[f"{u}.score"] = t1.get_score()
+                out[f"{u}.value"] = t1.get_retval()
     return out
-
-
-def oracle_fn(entry, form, tfd, sample_shape):
-    """(p0, p1, vals: dict name->value) -> dict of log-probs, all from TFP directly."""
-    import jax.numpy as jnp
-
-    ctor = _ctor(entry, tfd)
-    static = _static_kwargs(form)
-
-    def lp(p, v):
-        return jnp.sum(ctor(**p, **static).log_prob(v))
-
-    def f(p0, p1, vals):
-        out = {}
-        for k, v in vals.items():
-            out[f"lp0:{k}"] = lp(p0, v)
-            out[f"lp1:{k}"] = lp(p1, v)
-        return out
-
-    return f
 
 
 def tfp_sample_fn(entry, form, tfd, sample_shape):
@@ -367,7 +372,6 @@ class Judge:
         self.ss = tuple(sample_shape)
         self.edge = edge
         self.cond = f"{arm},{mode}" + (",sample-shape" if self.ss else "")
-        self.nviol = 0
 
     def sig(self, op, field):
         return f"{P}|op={op}|on={self.entry.name}|field={field}|cond={self.cond}"
@@ -381,57 +385,58 @@ class Judge:
         w.update(case)
         return w
 
-    def score(self, op, field, obs, exp, mags, terms, case, counter="score_evaluations"):
+    def score(self, op, field, obs, exp, mags, terms, case):
         ok = _scale_close(obs, exp, mags, terms)
         if ok is None:
             self.ctx.count("skipped_nan_expectation")
             return
-        nontrivial = np.isfinite(exp) and not (field.endswith("weight") and exp == 0.0 and not mags)
+        nontrivial = np.isfinite(exp) and not (exp == 0.0 and not mags)
         self.ctx.evaluation(self.fp(f"{op}.{field}"), nontrivial=bool(nontrivial))
-        self.ctx.count(counter)
+        self.ctx.count("score_evaluations")
+        self.ctx.count(f"op:{op}")
         if self.ss:
             self.ctx.count("sample_shape_evaluations")
         if not ok:
-            self.nviol += 1
             self.ctx.violation(self.sig(op, field), detail=f"observed {float(obs)!r}, TFP oracle {float(exp)!r}",
                                **self.witness(case))
 
-    def value(self, op, field, obs, exp, case, counter="score_evaluations"):
+    def value(self, op, field, obs, exp, case):
         ok = _val_equal(obs, exp)
         self.ctx.evaluation(self.fp(f"{op}.{field}"), nontrivial=True)
-        self.ctx.count(counter)
+        self.ctx.count("score_evaluations")
         if not ok:
-            self.nviol += 1
             self.ctx.violation(self.sig(op, field), detail=f"observed {common.short(np.asarray(obs).tolist())}, expected {common.short(np.asarray(exp).tolist())}",
                                **self.witness(case))
 
 
-def judge_case(J, out, orc, p0, v1, mflag, tfp_direct, exp_shape, case):
+def judge_case(J, out, orc, p0, v0, v1, mflag, tfp_direct, exp_shape, case):
     """Compare one case (numpy values) with the oracle."""
     ctx = J.ctx
     entry, form = J.entry, J.form
     nterms = max(1, int(np.prod(exp_shape)) if len(exp_shape) else 1)
-    L0 = lambda k: float(orc[f"lp0:{k}"])  # noqa: E731
-    L1 = lambda k: float(orc[f"lp1:{k}"])  # noqa: E731
+    L0 = lambda k: float(orc.get(f"lp0:{k}", np.nan))  # noqa: E731
+    L1 = lambda k: float(orc.get(f"lp1:{k}", np.nan))  # noqa: E731
 
-    # ---- sample monitors (simulate and every freshly sampled value)
-    fresh = [("simulate", "sim.value")]
+    # ---- sample monitors: every freshly sampled value
+    fresh = []
+    if "sim.value" in out:
+        fresh.append(("simulate", "sim.value"))
     if "impE.value" in out:
         fresh.append(("importance-empty", "impE.value"))
-        if not mflag:
-            fresh.append(("importance-masked", "impM.value"))
+    if "impM.value" in out and not mflag:
+        fresh.append(("importance-masked", "impM.value"))
     want_dt = _expected_dtype(entry, form)
     pred = T.SUPPORT[entry.support]
     for op, k in fresh:
         v = np.asarray(out[k])
         ctx.count("sample_evaluations", 3)
         ctx.count(f"samples:{entry.name}")
-        ctx.evaluation(J.fp(f"{op}.dtype"), nontrivial=True, n=3)
+        if J.ss:
+            ctx.count("sample_shape_evaluations")
+        ctx.evaluation(J.fp(f"{op}.sample"), nontrivial=True, n=3)
         if str(v.dtype) != want_dt:
-            J.nviol += 1
             ctx.violation(J.sig(op, "dtype"), detail=f"sample dtype {v.dtype}, documented {want_dt}", **J.witness(case))
         if tuple(v.shape) != tuple(exp_shape):
-            J.nviol += 1
             ctx.violation(J.sig(op, "shape"), detail=f"sample shape {tuple(v.shape)}, TFP sample_shape+batch+event {tuple(exp_shape)}", **J.witness(case))
             continue
         try:
@@ -440,54 +445,67 @@ def judge_case(J, out, orc, p0, v1, mflag, tfp_direct, exp_shape, case):
             inside = True
             ctx.count("support_predicate_error")
         if not inside:
-            if k == "sim.value" and tfp_direct is not None and np.array_equal(np.asarray(tfp_direct), v, equal_nan=True):
+            direct = tfp_direct() if k == "sim.value" else None
+            if direct is not None and np.array_equal(np.asarray(direct), v, equal_nan=True):
                 ctx.count("support_edge_same_as_tfp_direct")
             elif J.edge:
-                # edge-of-domain parameters: float32 under/overflow inside TFP's sampler; the score
-                # monitors still judge this value
+                # edge-of-domain parameters: float32 under/overflow inside TFP's sampler
                 ctx.count("support_edge_unexcused_at_edge_params")
             else:
-                J.nviol += 1
                 ctx.violation(J.sig(op, "support"), detail=f"sample {common.short(v.tolist())} outside support '{entry.support}'", **J.witness(case))
-    if tfp_direct is not None:
-        ctx.count("sim_value_same_as_tfp_direct_same_key" if np.array_equal(np.asarray(tfp_direct), np.asarray(out["sim.value"]), equal_nan=True) else "sim_value_differs_from_tfp_direct_same_key")
 
     # ---- score monitors
     ctx.count(f"cases:{entry.name}")
-    J.value("simulate", "choice", out["sim.choice"], out["sim.value"], case)
-    J.score("simulate", "score", out["sim.score"], L0("sim.value"), [], nterms, case)
-    J.score("assess", "score", out["assess.score"], L0("v1"), [], nterms, case)
-    J.value("assess", "retval", out["assess.value"], v1, case)
-    J.score("importance", "weight", out["imp.weight"], L0("v1"), [], nterms, case)
-    J.score("importance", "score", out["imp.score"], L0("v1"), [], nterms, case)
-    J.value("importance", "value", out["imp.value"], v1, case)
-    if "impE.weight" not in out:
+    if "sim.value" in out:
+        J.value("simulate", "choice", out["sim.choice"], out["sim.value"], case)
+        J.score("simulate", "score", out["sim.score"], L0("sim.value"), [], nterms, case)
+    if "assess.score" in out:
+        J.score("assess", "score", out["assess.score"], L0("v1"), [], nterms, case)
+        J.value("assess", "retval", out["assess.value"], v1, case)
+    if "imp.weight" in out:
+        J.score("importance", "weight", out["imp.weight"], L0("v1"), [], nterms, case)
+        J.score("importance", "score", out["imp.score"], L0("v1"), [], nterms, case)
+        J.value("importance", "value", out["imp.value"], v1, case)
+    if "imp0.weight" in out:
+        J.score("importance", "weight", out["imp0.weight"], L0("v0"), [], nterms, case)
+        J.score("importance", "score", out["imp0.score"], L0("v0"), [], nterms, case)
+        J.value("importance", "value", out["imp0.value"], v0, case)
+    if "impE.weight" in out:
+        J.score("importance-empty", "weight", out["impE.weight"], 0.0, [], 1, case)
+        J.score("importance-empty", "score", out["impE.score"], L0("impE.value"), [], nterms, case)
+    if "impM.weight" in out:
+        if mflag:
+            J.score("importance-masked", "weight", out["impM.weight"], L0("v1"), [], nterms, case)
+            J.score("importance-masked", "score", out["impM.score"], L0("v1"), [], nterms, case)
+            J.value("importance-masked", "value", out["impM.value"], v1, case)
+        else:
+            J.score("importance-masked", "weight", out["impM.weight"], 0.0, [], 1, case)
+            J.score("importance-masked", "score", out["impM.score"], L0("impM.value"), [], nterms, case)
+    if not any(f"{u}.weight" in out for u in _UPD):
         return
-    J.score("importance-empty", "weight", out["impE.weight"], 0.0, [], 1, case)
-    J.score("importance-empty", "score", out["impE.score"], L0("impE.value"), [], nterms, case)
-    if mflag:
-        J.score("importance-masked", "weight", out["impM.weight"], L0("v1"), [], nterms, case)
-        J.score("importance-masked", "score", out["impM.score"], L0("v1"), [], nterms, case)
-        J.value("importance-masked", "value", out["impM.value"], v1, case)
+    if "sim.value" in out:
+        old_val = out["sim.value"]
+        old0 = L0("sim.value")
+        old1 = float(orc.get("lp1:sim.value", np.nan))
     else:
-        J.score("importance-masked", "weight", out["impM.weight"], 0.0, [], 1, case)
-        J.score("importance-masked", "score", out["impM.score"], L0("impM.value"), [], nterms, case)
-    old = L0("sim.value")
-    v0 = out["sim.value"]
+        old_val = v0
+        old0, old1 = L0("v0"), L1("v0")
 
     def upd(op, key, new_lp, new_val):
+        if f"{key}.weight" not in out:
+            return
         with np.errstate(invalid="ignore"):
-            J.score(op, "weight", out[f"{key}.weight"], new_lp - old, [new_lp, old], nterms, case)
+            J.score(op, "weight", out[f"{key}.weight"], new_lp - old0, [new_lp, old0], nterms, case)
         J.score(op, "score", out[f"{key}.score"], new_lp, [], nterms, case)
         J.value(op, "value", out[f"{key}.value"], new_val, case)
 
     upd("update-value", "updV", L0("v1"), v1)
-    upd("update-args", "updA", L1("sim.value"), v0)
+    upd("update-args", "updA", old1, old_val)
     upd("update-value-args", "updVA", L1("v1"), v1)
     if mflag:
         upd("update-masked", "updM", L1("v1"), v1)
     else:
-        upd("update-masked", "updM", L1("sim.value"), v0)
+        upd("update-masked", "updM", old1, old_val)
 
 
 def judge_equivalence(ctx, entry, form, armA, armB, mode, bs, ss, outA, outB, case):
@@ -516,35 +534,70 @@ def judge_equivalence(ctx, entry, form, armA, armB, mode, bs, ss, outA, outB, ca
 # ============================================================================ running a scenario
 
 
-class Unsupported(Exception):
-    pass
-
-
 def _np_tree(x):
     import jax
 
     return jax.tree_util.tree_map(np.asarray, x)
 
 
-def run_scenario(ctx, genjax, tfd, entry, form, arms, mode, bs, ss, edge, n, sid, light=False):
-    """One scenario: `n` cases, every arm in `arms` on the same keys/parameters."""
-    import jax
-    import jax.numpy as jnp
+def P0j(ps, i):
+    return {k: v[i] for k, v in ps.items()}
 
-    D = getattr(genjax, entry.name, None)
+
+def get_wrapper(genjax, name):
+    D = getattr(genjax, name, None)
     if D is None:
         import genjax._src.generative_functions.distributions.tensorflow_probability as tp
 
-        D = getattr(tp, entry.name)
+        D = getattr(tp, name)
+    return D
+
+
+def oracle_merged_fn(entry, form, tfd, bs, ss):
+    """K (parameters, value) pairs -> K summed log-probs through ONE TFP log_prob instance: the
+    pairs are laid side by side along a flattened batch axis (log_prob is elementwise over the
+    batch), so that compile-heavy densities are built once per run."""
+    import jax.numpy as jnp
+
+    ctor = _ctor(entry, tfd)
+    static = _static_kwargs(form)
+    names = [nm for nm, _ in form.params]
+    nb = len(bs)
+    B = int(np.prod(bs)) if nb else 1
+    ss = tuple(ss)
+
+    def f(plist, vlist):
+        K = len(vlist)
+        pc = {}
+        for nm in names:
+            pc[nm] = jnp.concatenate([jnp.reshape(p[nm], (B,) + tuple(p[nm].shape[nb:])) for p in plist], 0)
+        vs = [jnp.reshape(v, ss + (B,) + tuple(v.shape[len(ss) + nb:])) for v in vlist]
+        vc = jnp.concatenate(vs, axis=len(ss))
+        lp = ctor(**pc, **static).log_prob(vc)  # ss + (K*B,)
+        lp = jnp.reshape(lp, ss + (K, B))
+        lp = jnp.moveaxis(lp, len(ss), 0)
+        return jnp.sum(jnp.reshape(lp, (K, -1)), axis=1)
+
+    return f
+
+
+def run_scenario(ctx, genjax, tfd, entry, form, sc, sid):
+    """One scenario = one set of `n` parameter draws / keys / constraint values, and several runs
+    (arm, mode, opset, case indices) of the real wrapper on it."""
+    import jax
+    import jax.numpy as jnp
+
+    bs, ss, edge, n = tuple(sc["bs"]), tuple(sc["ss"]), sc["edge"], sc["n"]
+    use_vmap = sc.get("vmap", True)
+    D = get_wrapper(genjax, entry.name)
     rng = ctx.child_rng(sid)
     names = [nm for nm, _ in form.params]
     P0, P1 = [], []
     for _ in range(n):
         p0 = T.draw_params(form, rng, bs, edge)
         keep = p0 if rng.random() < 0.6 else None
-        p1 = T.draw_params(form, rng, bs, edge, keep=keep)
         P0.append(p0)
-        P1.append(p1)
+        P1.append(T.draw_params(form, rng, bs, edge, keep=keep))
     stack = lambda ps: {k: jnp.asarray(np.stack([p[k] for p in ps])) for k in names}  # noqa: E731
     p0s, p1s = stack(P0), stack(P1)
     seeds = rng.integers(0, 2**31 - 1, size=(n, 2))
@@ -553,58 +606,121 @@ def run_scenario(ctx, genjax, tfd, entry, form, arms, mode, bs, ss, edge, n, sid
     j = min(j, len(names) - 1) if len(names) >= 2 else j
 
     samp = tfp_sample_fn(entry, form, tfd, ss)
-    orc = oracle_fn(entry, form, tfd, ss)
+    orc = oracle_merged_fn(entry, form, tfd, bs, ss)
 
-    def one_case_inputs(s2, p0):
-        kv = jax.random.key(s2)
-        return samp(kv, p0)
+    # ---- oracle side first: can TFP itself build this distribution here?
+    try:
+        d0 = _ctor(entry, tfd)(**P0j(p0s, 0), **_static_kwargs(form))
+        exp_shape = tuple(ss) + tuple(d0.batch_shape) + tuple(d0.event_shape)
+        want_dt = _expected_dtype(entry, form)
+        # constraint values: in-support numpy draws (no TFP sampler needed on the oracle side)
+        v0s = np.stack([T.gen_value(entry.support, rng, P0[i], exp_shape, want_dt) for i in range(n)])
+        v1s = np.stack([T.gen_value(entry.support, rng, P0[i], exp_shape, want_dt, boundary=edge) for i in range(n)])
+    except Exception as e:  # TFP's substrate cannot do it: inconclusive for this name
+        ctx.count(f"tfp_unsupported:{entry.name}")
+        ctx.note(f"TFP cannot build {entry.name}/{form.tag} bs={bs} ss={ss}: {type(e).__name__}: {str(e)[:120]}")
+        return False
+    _direct = {}
 
-    def sys_fn(arm):
-        def f(s1, p0, p1, v1, mflag):
+    def tfp_direct(mode, i):
+        """What TFP itself draws for the key that simulate hands to the sampler (same mode).
+        Only computed when a sample fell outside the support: identical => TFP's numerics."""
+        try:
+            if mode == "jit" and use_vmap:
+                if "jit" not in _direct:
+                    _direct["jit"] = np.asarray(jax.jit(jax.vmap(lambda s1, p0: samp(jax.random.split(jax.random.key(s1), 6)[0], p0)))(jnp.asarray(seeds[:, 0]), p0s))
+                return _direct["jit"][i]
+            return np.asarray(samp(jax.random.split(jax.random.key(int(seeds[i, 0])), 6)[0], P0j(p0s, i)))
+        except Exception:
+            return None
+
+    def sys_fn(arm, ops):
+        def f(s1, p0, p1, v0, v1, mflag):
             key = jax.random.key(s1)
             a0, ukw = make_args(arm, form, p0, ss, j)
             a1, _ = make_args(arm, form, p1, ss, j)
-            return gfi_ops(D, arm, a0, a1, ukw, key, v1, mflag, light)
+            return gfi_ops(D, arm, a0, a1, ukw, key, v0, v1, mflag, ops)
 
         return f
 
-    def direct_fn(s1, p0):
-        key = jax.random.key(s1)
-        return samp(jax.random.split(key, 6)[0], p0)
+    def oracle_lps(mode, cases, idx, ops_used):
+        """dict name -> array over idx of summed TFP log-probs, for exactly the pairs the judge needs."""
+        def need_for(c0):  # (name, which params, value source)
+            need = []
+            anyupd = any(f"{u}.weight" in c0 for u in _UPD)
+            if "sim.value" in c0:
+                need.append(("lp0:sim.value", 0, "sim.value"))
+                if anyupd:
+                    need.append(("lp1:sim.value", 1, "sim.value"))
+            if "imp0.weight" in c0:
+                need.append(("lp0:v0", 0, "v0"))
+                need.append(("lp1:v0", 1, "v0"))
+            if any(k in c0 for k in ("assess.score", "imp.weight", "impM.weight", "updV.weight")):
+                need.append(("lp0:v1", 0, "v1"))
+            if any(k in c0 for k in ("updVA.weight", "updM.weight")):
+                need.append(("lp1:v1", 1, "v1"))
+            if "impE.value" in c0:
+                need.append(("lp0:impE.value", 0, "impE.value"))
+            if "impM.value" in c0:
+                need.append(("lp0:impM.value", 0, "impM.value"))
+            return need
 
-    # ---- oracle side first: can TFP itself sample / score here?
-    try:
-        if mode == "jit":
-            v1s = jax.jit(jax.vmap(one_case_inputs))(jnp.asarray(seeds[:, 1]), p0s)
-            directs = jax.jit(jax.vmap(direct_fn))(jnp.asarray(seeds[:, 0]), p0s)
-        else:
-            v1s = [one_case_inputs(int(seeds[i, 1]), P0j(p0s, i)) for i in range(n)]
-            directs = [direct_fn(int(seeds[i, 0]), P0j(p0s, i)) for i in range(n)]
-        d0 = _ctor(entry, tfd)(**P0j(p0s, 0), **_static_kwargs(form))
-        exp_shape = tuple(ss) + tuple(d0.batch_shape) + tuple(d0.event_shape)
-    except Exception as e:  # TFP's substrate cannot do it: inconclusive for this name
-        ctx.count(f"tfp_unsupported:{entry.name}")
-        ctx.note(f"TFP cannot sample {entry.name}/{form.tag} bs={bs} ss={ss}: {type(e).__name__}: {str(e)[:120]}")
-        return False
+        need = need_for(cases[0])
 
-    outs = {}
-    for arm in arms:
+        def val(src, c, i):
+            if src == "v0":
+                return v0s[i]
+            if src == "v1":
+                return v1s[i]
+            return c[src]
+
+        if mode == "jit" and use_vmap:
+            plist = [(p0s if w == 0 else p1s) for _, w, _ in need]
+            plist = [{k: v[jnp.asarray(idx)] for k, v in p.items()} for p in plist]
+            vlist = [jnp.asarray(np.stack([val(src, c, i) for c, i in zip(cases, idx)])) for _, _, src in need]
+            r = np.asarray(jax.jit(jax.vmap(orc))(plist, vlist))  # (len(idx), K)
+            return [{nm: r[t, q] for q, (nm, _, _) in enumerate(need)} for t in range(len(idx))]
+        fn = jax.jit(orc) if mode == "jit" else orc
+        outl = []
+        for c, i in zip(cases, idx):
+            # an eager case may lack fields that case 0 has (later eager cases skip the samplers)
+            nd = need_for(c)
+            plist = [P0j(p0s if w == 0 else p1s, i) for _, w, _ in nd]
+            vlist = [jnp.asarray(val(src, c, i)) for _, _, src in nd]
+            r = np.asarray(fn(plist, vlist))
+            outl.append({nm: r[q] for q, (nm, _, _) in enumerate(nd)})
+        return outl
+
+    done = []
+    for run in sc["runs"]:
+        arm, mode, opset = run["arm"], run["mode"], run["ops"]
+        ops = OPSETS[opset]
+        idx = list(range(n)) if mode == "jit" else list(range(min(n, run.get("cases", 1))))
+        J = Judge(ctx, entry, form, arm, mode if (use_vmap or mode == "eager") else "jit-novmap", bs, ss, edge)
         try:
             with warnings.catch_warnings(record=True) as wlist:
                 warnings.simplefilter("always")
-                if mode == "jit":
-                    o = jax.jit(jax.vmap(sys_fn(arm)))(jnp.asarray(seeds[:, 0]), p0s, p1s, v1s, jnp.asarray(flags))
+                if mode == "jit" and use_vmap:
+                    o = jax.jit(jax.vmap(sys_fn(arm, ops)))(jnp.asarray(seeds[:, 0]), p0s, p1s, jnp.asarray(v0s), jnp.asarray(v1s), jnp.asarray(flags))
                     o = _np_tree(o)
-                    outs[arm] = [{k: v[i] for k, v in o.items()} for i in range(n)]
+                    cases = [{k: v[i] for k, v in o.items()} for i in idx]
+                elif mode == "jit":
+                    fn = jax.jit(sys_fn(arm, ops))
+                    cases = [_np_tree(fn(jnp.asarray(seeds[i, 0]), P0j(p0s, i), P0j(p1s, i), jnp.asarray(v0s[i]), jnp.asarray(v1s[i]), jnp.asarray(bool(flags[i])))) for i in idx]
                 else:
-                    outs[arm] = []
-                    for i in range(n):
-                        # concrete python bool flag on even cases, concrete array flag on odd ones
+                    cases = []
+                    for i in idx:
+                        # concrete python bool flag on even cases, concrete 0-d array flag on odd ones
                         fl = bool(flags[i]) if i % 2 == 0 else jnp.asarray(bool(flags[i]))
-                        o = sys_fn(arm)(int(seeds[i, 0]), P0j(p0s, i), P0j(p1s, i), v1s[i], fl)
-                        outs[arm].append(_np_tree(o))
+                        # the first eager case does everything; later ones skip the (very slow, eager)
+                        # TFP samplers and start from a fully constrained trace
+                        eops = ops if i == 0 else tuple(x for x in ops if x in LPONLY_OPS)
+                        if i > 0 and isinstance(fl, bool) and fl and "impM" in ops:
+                            eops = eops + ("impM",)  # python True: plain constraint, no lax.cond, no sampler
+                        o = sys_fn(arm, eops)(int(seeds[i, 0]), P0j(p0s, i), P0j(p1s, i), jnp.asarray(v0s[i]), jnp.asarray(v1s[i]), fl)
+                        cases.append(_np_tree(o))
             dep = [w for w in wlist if issubclass(w.category, DeprecationWarning) and "bare argument" in str(w.message)]
-            if form.bare and arm in ("pos", "closure-pos"):
+            if form.bare and arm in ("pos", "closure-pos") and not ss:
                 ctx.count("bare_argument_invocations")
                 if dep:
                     ctx.count("bare_argument_deprecation_warning_seen")
@@ -613,68 +729,58 @@ def run_scenario(ctx, genjax, tfd, entry, form, arms, mode, bs, ss, edge, n, sid
         except Exception as e:
             ctx.count("score_evaluations")
             ctx.evaluation((entry.name, form.tag, arm, mode, "raises"), nontrivial=True)
-            ctx.violation(f"{P}|op=gfi|on={entry.name}|field=raises|cond={arm},{mode}{',sample-shape' if ss else ''},{common.exc_mechanism(e)}",
-                          detail=f"{type(e).__name__}: {str(e)[:300]}", distribution=entry.name, form=form.tag,
-                          batch_shape=list(bs), sample_shape=list(ss), params=_np_tree(P0j(p0s, 0)))
+            ctx.violation(f"{P}|op=gfi|on={entry.name}|field=raises|cond={J.cond},{common.exc_mechanism(e)}",
+                          detail=f"{type(e).__name__}: {str(e)[:300]}", ops=list(ops), **J.witness({"params": _np_tree(P0j(p0s, 0))}))
             continue
 
-    if not outs:
-        return True
-    # ---- oracle log-probs for every value that appeared
-    for arm, cases in outs.items():
-        J = Judge(ctx, entry, form, arm, mode, bs, ss, edge)
-        valkeys = [k for k in cases[0] if k.endswith(".value") and k.split(".")[0] in ("sim", "impE", "impM")]
-
-        def orc_case(p0, p1, v1, vals):
-            d = dict(vals)
-            d["v1"] = v1
-            return orc(p0, p1, d)
-
+        # ---- oracle log-probs for every value that appeared
         try:
-            if mode == "jit":
-                vals = {k: jnp.asarray(np.stack([c[k] for c in cases])) for k in valkeys}
-                lps = _np_tree(jax.jit(jax.vmap(orc_case))(p0s, p1s, v1s, vals))
-                lps = [{k: v[i] for k, v in lps.items()} for i in range(n)]
-            else:
-                lps = [_np_tree(orc_case(P0j(p0s, i), P0j(p1s, i), v1s[i], {k: jnp.asarray(cases[i][k]) for k in valkeys})) for i in range(n)]
+            lps = oracle_lps(mode, cases, idx, ops)
         except Exception as e:
             # the oracle cannot score what the wrapper returned (e.g. wrong shape): judge shapes only
             ctx.note(f"oracle could not score {entry.name}/{form.tag}/{arm}: {type(e).__name__}: {str(e)[:160]}")
             lps = None
-        for i in range(n):
+        for t, (c, i) in enumerate(zip(cases, idx)):
             case = {"params": _np_tree(P0j(p0s, i)), "new_params": _np_tree(P0j(p1s, i)), "seed_pair": [int(seeds[i, 0]), int(seeds[i, 1])],
                     "constraint_value": np.asarray(v1s[i]), "mask_flag": bool(flags[i])}
             if lps is None:
-                v = np.asarray(cases[i]["sim.value"])
-                ctx.count("sample_evaluations")
-                ctx.evaluation(J.fp("simulate.shape"), nontrivial=True)
-                if tuple(v.shape) != exp_shape:
-                    ctx.violation(J.sig("simulate", "shape"), detail=f"sample shape {tuple(v.shape)}, TFP {exp_shape}", **J.witness(case))
-                else:
-                    ctx.count(f"oracle_failed:{entry.name}")
+                ctx.count(f"oracle_failed:{entry.name}")
+                if "sim.value" in c:
+                    v = np.asarray(c["sim.value"])
+                    ctx.count("sample_evaluations")
+                    ctx.evaluation(J.fp("simulate.shape"), nontrivial=True)
+                    if tuple(v.shape) != exp_shape:
+                        ctx.violation(J.sig("simulate", "shape"), detail=f"sample shape {tuple(v.shape)}, TFP {exp_shape}", **J.witness(case))
                 continue
-            judge_case(J, cases[i], lps[i], _np_tree(P0j(p0s, i)), np.asarray(v1s[i]), bool(flags[i]), np.asarray(directs[i]), exp_shape, case)
-        ctx.count(f"mode:{mode}", n)
-        ctx.count(f"arm:{arm}", n)
-        ctx.count(f"shape:bs{len(bs)}d", n)
+            judge_case(J, c, lps[t], _np_tree(P0j(p0s, i)), np.asarray(v0s[i]), np.asarray(v1s[i]), bool(flags[i]), (lambda m=mode, ii=i: tfp_direct(m, ii)), exp_shape, case)
+        k = len(idx)
+        ctx.count(f"mode:{mode}", k)
+        if mode == "jit":
+            ctx.count("mode:jit(vmap)" if use_vmap else "mode:jit(no vmap)", k)
+        ctx.count(f"arm:{arm}", k)
+        ctx.count(f"ops:{opset}", k)
+        ctx.count(f"shape:bs{len(bs)}d", k)
         if edge:
-            ctx.count("edge_param_cases", n)
+            ctx.count("edge_param_cases", k)
         if ss:
-            ctx.count("sample_shape_cases", n)
-        ctx.sample({"distribution": entry.name, "form": form.tag, "arm": arm, "mode": mode, "batch_shape": list(bs),
-                    "sample_shape": list(ss), "params": _np_tree(P0j(p0s, 0)), "sim_value": cases[0]["sim.value"],
-                    "sim_score": float(cases[0]["sim.score"]), "tfp_log_prob": None if lps is None else float(lps[0]["lp0:sim.value"])}, limit=3)
-    arms_done = list(outs)
-    for b in arms_done[1:]:
-        a = arms_done[0]
-        for i in range(n):
-            case = {"params": _np_tree(P0j(p0s, i)), "seed_pair": [int(seeds[i, 0]), int(seeds[i, 1])]}
-            judge_equivalence(ctx, entry, form, a, b, mode, bs, ss, outs[a][i], outs[b][i], case)
+            ctx.count("sample_shape_cases", k)
+        if "sim.value" in cases[0]:
+            ctx.sample({"distribution": entry.name, "form": form.tag, "arm": arm, "mode": mode, "batch_shape": list(bs),
+                        "sample_shape": list(ss), "params": _np_tree(P0j(p0s, 0)), "sim_value": cases[0]["sim.value"],
+                        "sim_score": float(cases[0]["sim.score"]), "tfp_log_prob": None if lps is None else float(lps[0]["lp0:sim.value"])}, limit=3)
+        done.append((arm, mode, idx, cases))
+
+    # ---- invocation equivalence: same mode, same cases, different arm
+    for a_i in range(len(done)):
+        for b_i in range(a_i + 1, len(done)):
+            armA, modeA, idxA, casesA = done[a_i]
+            armB, modeB, idxB, casesB = done[b_i]
+            if modeA != modeB or armA == armB:
+                continue
+            for i in sorted(set(idxA) & set(idxB)):
+                case = {"params": _np_tree(P0j(p0s, i)), "seed_pair": [int(seeds[i, 0]), int(seeds[i, 1])]}
+                judge_equivalence(ctx, entry, form, armA, armB, modeA, bs, ss, casesA[idxA.index(i)], casesB[idxB.index(i)], case)
     return True
-
-
-def P0j(ps, i):
-    return {k: v[i] for k, v in ps.items()}
 
 
 # ============================================================================ bare-argument semantics
@@ -721,41 +827,119 @@ def bare_argument_check(ctx, genjax, tfd):
 
 
 def scenarios_for(ctx, entry, form, uid):
-    """Ordered scenario list (priority first). Each: dict(arms, mode, bs, ss, edge, n, light)."""
+    """Ordered scenario list. Each: dict(bs, ss, edge, n, pri, vmap, runs=[dict(arm, mode, ops, cases)]).
+
+    Cost model (measured, see vf/gen/c24_table.py COST): a TFP gamma-family / rejection *sampler*
+    costs 2-20 CPU-seconds of compile time per instance under jit and seconds per call eagerly; a
+    few *log_prob*s (beta_quotient, non_central_chi2, skellam, von_mises_fisher, lambert_w_normal)
+    cost 1-17 s per instance and explode under vmap. pri 0 always runs; pri >= 1 run while the
+    shard's time budget lasts, in an order that changes with unit and seed."""
     rng = ctx.child_rng(7000 + uid)
     q = ctx.quick()
+    cost = entry.cost
     N = ctx.pick(20, 300)
-    full = ["pos"] if arm_possible("pos", form) else []
-    kwarms = ["kw"] + (["mixed"] if arm_possible("mixed", form) else [])
-    primary = (full + kwarms)[:2] if q else (full + kwarms)
+    arms = (["pos"] if arm_possible("pos", form) else []) + ["kw"] + (["mixed"] if arm_possible("mixed", form) else [])
     bshapes = [(), (3,), (2, 2)]
+    pick = lambda xs: xs[int(rng.integers(0, len(xs)))]  # noqa: E731
+    R = lambda arm, mode, ops, cases=1: dict(arm=arm, mode=mode, ops=ops, cases=cases)  # noqa: E731
     out = []
-    # 1. jit(vmap), scalar parameters, primary arms, all operations
-    out.append(dict(arms=primary, mode="jit", bs=(), ss=(), edge=False, n=N, light=False, pri=0))
-    # 2. eager, concrete flags, one batched shape
-    eb = bshapes[int(rng.integers(0, 3))]
-    out.append(dict(arms=(full + kwarms)[:2], mode="eager", bs=eb, ss=(), edge=False, n=ctx.pick(2, 6), light=False, pri=1))
-    # 3. jit, batched + edge parameters
-    b3 = bshapes[int(rng.integers(1, 3))]
-    a3 = [(full + kwarms)[int(rng.integers(0, len(full + kwarms)))]]
-    out.append(dict(arms=a3, mode="jit", bs=b3, ss=(), edge=True, n=N, light=False, pri=2))
-    # 4. sample_shape
-    ss = [(2,), (2, 3), (1,)][int(rng.integers(0, 3))]
-    a4 = [(full + kwarms)[int(rng.integers(0, len(full + kwarms)))]]
-    out.append(dict(arms=a4, mode="jit" if rng.random() < 0.7 else "eager", bs=bshapes[int(rng.integers(0, 2))], ss=ss, edge=False, n=ctx.pick(8, 100), light=False, pri=3))
-    # 5. closures (simulate / assess / importance only; closure.edit belongs to C32)
-    carms = (["closure-pos"] if arm_possible("closure-pos", form) else []) + ["closure-kw"]
-    base = "pos" if full else "kw"
-    out.append(dict(arms=[base] + carms, mode="eager" if rng.random() < 0.5 else "jit", bs=bshapes[int(rng.integers(0, 3))], ss=(), edge=False, n=ctx.pick(3, 40), light=True, pri=4))
+    base = "pos" if "pos" in arms else "kw"
+    cl = [a for a in ("closure-pos", "closure-kw") if arm_possible(a, form)]
+    first = (uid + ctx.seed) % len(arms)
+    order = arms[first:] + arms[:first]
+
+    if cost == "lpheavy":
+        # natively batched parameters (batch shape (4,) or (2,2)) instead of vmap; few densities per run
+        nb = ctx.pick(3, 12)
+        bsA = pick(bshapes[1:])
+        out.append(dict(bs=bsA, ss=(), edge=False, n=nb, pri=0, vmap=False,
+                        runs=[R(order[0], "jit", "sim+assess")] + [R(a, "jit", "assess-only") for a in order[1:2]]))
+        sec = [
+            dict(bs=bsA, ss=(), edge=False, n=nb, vmap=False, runs=[R(pick(arms), "jit", "upd-min")]),
+            dict(bs=pick(bshapes), ss=(), edge=True, n=nb, vmap=False, runs=[R(pick(arms), "jit", "imp-only"), R(pick(arms), "jit", "fresh-min")]),
+            dict(bs=pick(bshapes[:2]), ss=pick([(2,), (2, 3)]), edge=False, n=nb, vmap=False, runs=[R(pick(arms), "jit", "sim-only")]),
+            dict(bs=pick(bshapes), ss=(), edge=False, n=nb, vmap=False, runs=[R(base, "jit", "assess-only"), R(cl[0], "jit", "sim+assess")] + [R(a, "jit", "assess-only") for a in cl[1:]]),
+            dict(bs=pick(bshapes), ss=(), edge=False, n=1, vmap=False, runs=[R(pick(arms), "eager", "sim+assess", cases=1)]),
+        ]
+        if not q:
+            sec += [
+                dict(bs=(), ss=(), edge=False, n=nb, vmap=False, runs=[R(order[0], "jit", "core")] + [R(a, "jit", "sim+assess") for a in order[1:]]),
+                dict(bs=(3,), ss=(), edge=True, n=nb, vmap=False, runs=[R(a, "jit", "upd-min") for a in arms[:2]]),
+                dict(bs=(3,), ss=(), edge=False, n=nb, vmap=False, runs=[R(pick(arms), "jit", "full+fresh")]),
+                dict(bs=(2, 2), ss=(2,), edge=True, n=nb, vmap=False, runs=[R(a, "jit", "sim+assess") for a in arms[:2]]),
+                dict(bs=(), ss=(), edge=False, n=2, vmap=False, runs=[R(pick(arms), "eager", "core", cases=2)]),
+            ]
+            if entry.name != "beta_quotient":  # 147 CPU-s of vmap lowering per density instance
+                sec.append(dict(bs=(), ss=(), edge=False, n=40, vmap=True, runs=[R(pick(arms), "jit", "sim+assess")]))
+        perm = rng.permutation(len(sec))
+        for rank, k in enumerate(perm):
+            sec[int(k)]["pri"] = 1 + rank
+            out.append(sec[int(k)])
+        return out
+
+    heavy = cost == "heavy"
+    # A. scalar parameters: arms under jit(vmap) -- one with simulate + all operations, the other(s)
+    #    light (or, for heavy samplers, from a fully constrained trace: no sampler) -- plus eager cases
+    if q:
+        order = order[:2]
+    second = "lponly" if (q and heavy) else ("light" if q else "full")
+    runsA = [R(order[0], "jit", "full")] + [R(a, "jit", second) for a in order[1:]]
+    if q and heavy:
+        runsA.append(R(pick(order), "eager", "lponly", cases=4))
+    else:
+        runsA.append(R(pick(order), "eager", "full", cases=ctx.pick(4, 8)))
+    out.append(dict(bs=(), ss=(), edge=False, n=N, pri=0, runs=runsA))
+
+    secondary = []
+    # B. batched + edge-of-domain parameters, fresh-sample operations (empty / masked constraints)
+    secondary.append(dict(bs=pick(bshapes[1:]), ss=(), edge=True, n=N, runs=[R(pick(arms), "jit", "lp+fresh" if (q and heavy) else "full+fresh")]))
+    # C. sample_shape
+    c_mode = "jit" if (heavy or rng.random() < 0.7) else "eager"
+    secondary.append(dict(bs=pick(bshapes[:2]), ss=pick([(2,), (2, 3), (1,)]), edge=False, n=ctx.pick(8, 100),
+                          runs=[R(pick(arms), c_mode, "full", cases=3)]))
+    # D. closures dist(*a, **k): simulate / assess / importance (closure.edit belongs to C32)
+    d_mode = "jit" if (heavy or rng.random() < 0.5) else "eager"
+    if q and heavy:
+        runsD = [R(base, d_mode, "score-only", cases=2), R(cl[0], d_mode, "light", cases=2)] + [R(a, d_mode, "score-only", cases=2) for a in cl[1:]]
+    else:
+        runsD = [R(base, d_mode, "light", cases=2), R(cl[0], d_mode, "light", cases=2)] + [R(a, d_mode, "score-only", cases=2) for a in cl[1:]]
+    secondary.append(dict(bs=pick(bshapes), ss=(), edge=False, n=ctx.pick(4, 40), runs=runsD))
+    if q and heavy:
+        # E. eager simulate (an eager TFP gamma-family sampler call costs seconds)
+        secondary.append(dict(bs=pick(bshapes), ss=(), edge=False, n=3, runs=[R(pick(arms), "eager", "full", cases=3)]))
+    perm = rng.permutation(len(secondary))
+    for rank, k in enumerate(perm):
+        sc = secondary[int(k)]
+        sc["pri"] = 1 + rank
+        out.append(sc)
+
     if not q:
         for bs in bshapes:
-            out.append(dict(arms=full + kwarms, mode="jit", bs=bs, ss=(), edge=True, n=N, light=False, pri=5))
-        out.append(dict(arms=full + kwarms, mode="jit", bs=(3,), ss=(), edge=False, n=N, light=False, pri=5))
-        out.append(dict(arms=full + kwarms, mode="eager", bs=(), ss=(), edge=True, n=6, light=False, pri=5))
+            out.append(dict(bs=bs, ss=(), edge=True, n=N, pri=5, runs=[R(arms[0], "jit", "full")] + [R(a, "jit", "lponly") for a in arms[1:]]))
+        out.append(dict(bs=(3,), ss=(), edge=False, n=N, pri=5,
+                        runs=[R(arms[0], "jit", "full+fresh")] + [R(a, "jit", "full") for a in arms[1:]] + [R(pick(arms), "eager", "full+fresh", cases=4)]))
+        out.append(dict(bs=(), ss=(), edge=True, n=8, pri=6, runs=[R(pick(arms), "eager", "full+fresh", cases=8)]))
         for s2 in [(2,), (2, 3)]:
-            out.append(dict(arms=(full + kwarms)[:2], mode="jit", bs=(3,), ss=s2, edge=False, n=100, light=False, pri=6))
-        out.append(dict(arms=[base] + carms, mode="jit", bs=(3,), ss=(2,), edge=False, n=40, light=True, pri=6))
+            out.append(dict(bs=(3,), ss=s2, edge=False, n=100, pri=6, runs=[R(arms[0], "jit", "full")] + [R(a, "jit", "light") for a in arms[1:2]]))
+        out.append(dict(bs=(3,), ss=(2,), edge=False, n=40, pri=7, runs=[R(base, "jit", "light")] + [R(a, "jit", "light") for a in cl]))
+        out.append(dict(bs=(2, 2), ss=(), edge=False, n=6, pri=7, vmap=False, runs=[R(a, "jit", "full") for a in arms[:1]]))
     return out
+
+
+def assign_units(units, nshards, seed):
+    """Greedy balance of units over shards by estimated cost (deterministic; the seed rotates ties)."""
+    costs = []
+    for uid, (e, f) in enumerate(units):
+        c = T.UNIT_COST_BY_NAME.get(e.name, T.UNIT_COST[e.cost])
+        costs.append((c, (uid * 7 + seed * 13) % 101, uid))
+    costs.sort(key=lambda t: (-t[0], t[1]))
+    load = [0.0] * nshards
+    owner = {}
+    for c, _, uid in costs:
+        k = min(range(nshards), key=lambda s: (load[s], (s + seed) % nshards))
+        load[k] += c
+        owner[uid] = k
+    return owner
 
 
 def run(ctx):
@@ -786,15 +970,13 @@ def _run(ctx, genjax, tfd):
         for n in missing:
             ctx.count(f"not_in_table:{n}")
             ctx.note(f"exported wrapper without a parameter generator: {n}")
+    if ctx.shard == ctx.nshards - 1:
         bare_argument_check(ctx, genjax, tfd)
 
     units = [(e, f) for e in table for f in e.forms]
-    # rotate the unit -> shard assignment with the seed so that seeds balance differently
-    order = list(range(len(units)))
-    rot = ctx.seed % max(1, len(units))
-    order = order[rot:] + order[:rot]
-    mine = [order[i] for i in ctx.my_share(len(order))]
-    budget = ctx.pick(70.0, 780.0)
+    owner = assign_units(units, ctx.nshards, ctx.seed)
+    mine = [uid for uid in range(len(units)) if owner[uid] == ctx.shard]
+    budget = ctx.pick(60.0, 740.0)
     plans = []
     for uid in mine:
         e, f = units[uid]
@@ -802,12 +984,11 @@ def _run(ctx, genjax, tfd):
             plans.append((sc["pri"], k, uid, sc))
     plans.sort(key=lambda t: (t[0], t[2]))
     for pri, k, uid, sc in plans:
+        e, f = units[uid]
         if pri > 0 and ctx.elapsed() > budget:
             ctx.count("scenarios_skipped_for_time")
             continue
-        e, f = units[uid]
-        ok = run_scenario(ctx, genjax, tfd, e, f, sc["arms"], sc["mode"], sc["bs"], sc["ss"], sc["edge"], sc["n"],
-                          sid=uid * 100 + k, light=sc["light"])
+        ok = run_scenario(ctx, genjax, tfd, e, f, sc, sid=uid * 100 + k)
         ctx.count("scenarios_run")
         if ok:
             ctx.count(f"scenarios:{e.name}")
